@@ -108,6 +108,23 @@ def run(tier, seed):
             for x in (cands if isfull else rng.sample(cands, 3)):
                 neg.append((v, 'F', F, x))
                 negmodel.append('RESC %s %s %s' % (v, F, vlib.hexs(x)))
+    # fields of a base datatype: their one component is named after the datatype (`field.si`, `field.st`); every letter case and the
+    # positional path reach it, for get, set and delete alike
+    for v in VERSIONS:
+        lib = hl7apy.load_library(v)
+        seen = {}
+        for fn in sorted(lib.FIELDS):
+            r = lib.FIELDS[fn]
+            if gen.well_formed_ref(r) and len(r) == 6 and r[0] == 'leaf' and r[2] not in ('varies', None) and fn.split('_')[0] not in ex.get(v, []) \
+                    and fn.split('_')[0] in lib.SEGMENTS and r[2] not in seen:
+                seen[r[2]] = fn
+        for dt, F in sorted(seen.items()):
+            val = SAFE.get(dt, 'X')
+            sp = [dt.upper(), dt.lower(), mixed(dt), '%s_1' % F.lower(), '%s_1' % F]
+            for x in (sp if v in full else rng.sample(sp, 2)):
+                jobs.append((v, 'F', F, x, dt.upper(), val))
+                meta.append((dt.upper(), val))
+                model.append('RESC %s %s %s' % (v, F, vlib.hexs(x)))
     a = vlib.pmap(impl.addr, jobs)
     na = vlib.pmap(impl.addr_neg, neg)
     mo = vlib.run_driver(model + negmodel)
